@@ -390,10 +390,16 @@ def run(ctx):
     # calls through SHARED parser / serializer instances: among themselves and against the cold-index operations
     pairs += [(a, b) for i, a in enumerate(shared) for b in shared[i:]] + [(a, b) for a in shared[:2] for b in ("parse_xsi", "find_derived")]
     pairs += [("shared_json_poly", "shared_json_lenient"), ("shared_json_lenient", "shared_json_poly"), ("shared_json_poly", "shared_json_poly")]
-    n = explore_api(ctx, ms, scheduler, 2, pairs, ctx.pick(2, 3), ctx.pick(40, 600), traces)
+    # (the API-level exploration may also preempt a thread in the middle of the class-tree walk of the index build)
+    ms_api = cb.markers(walk=True)
+    ctx.extra["markers_missing_api"] = ms_api.missing
+    if any(m[1] == "p_walk" for m in ms_api.missing):
+        ctx.divergences.append({"kind": "markers-missing", "missing": ms_api.missing})
+    scheduler_api = sched.Scheduler(ms_api, timeout=20.0)
+    n = explore_api(ctx, ms_api, scheduler_api, 2, pairs, ctx.pick(2, 3), ctx.pick(40, 600), traces)
     triples = [("parse_xsi", "parse_noclass", "serialize"), ("parse_xsi", "find_derived", "json_noclass"),
                ("parse_noclass", "parse_noclass", "find_derived"), ("json_noclass", "find_unknown", "find_unknown")]
-    n += explore_api(ctx, ms, scheduler, 3, triples, 2, ctx.pick(60, 1500), traces)
+    n += explore_api(ctx, ms_api, scheduler_api, 3, triples, 2, ctx.pick(60, 1500), traces)
     # seeded random schedules with more threads
     n += explore_random(ctx, ms, scheduler, ctx.pick(30, 400), traces)
     ctx.extra["api_interleavings_explored"] = n
